@@ -36,7 +36,13 @@ static inline opus_int32 conv24(float x) { return (opus_int32)lrintf(x * 8388608
 static const float HUGE_OUT = 255.f;   // beyond this 2^23*x does not fit 32 bits (C19 / F5 territory)
 
 static const double AMPS_I16[6] = {0.5, 1.0, 0.05, 1.6, 0.0004, 0.9};
+#ifdef FIXED_POINT
+// fixed-point build: float input beyond the documented range +-1.0 is outside what is claimed there (the encoder's analysis down-mix
+// sums FLOAT2SIG() of the channels in 32 bits: DESIGN 9.2, note after the findings table); the decoded output cannot exceed full scale anyway
+static const double AMPS_LOUD[6] = {0.9, 1.0, 0.4, 0.99, 0.7, 1.0};
+#else
 static const double AMPS_LOUD[6] = {0.9, 1.5, 0.4, 2.5, 1.1, 5.0};
+#endif
 
 // ---- setting changes applied identically to the twins ------------------------
 struct Op { int kind = 0; opus_int32 val = 0; };
